@@ -3,6 +3,10 @@
      spatial.py  tile_pixel_matrix, get_tile_array,
                  compute_tile_positions_per_frame, iter_tiled_full_frame_data
      utils.py    compute_plane_position_tiled_full, are_plane_positions_tiled_full
+   and (extension at the end of the file) the argument guards of these, the
+   dataset-level options of iter_tiled_full_frame_data,
+   utils.compute_plane_position_slide_per_frame, the 4 x 4 affine matrix of
+   spatial.PixelToReferenceTransformer, get_tile_array on R x C x S arrays.
    Integers are Z; physical positions are exact rationals (Q). *)
 From Coq Require Import ZArith List Bool String QArith.
 From HD Require Import Base.Val.
@@ -277,3 +281,24 @@ Definition run_tile_array_nd S M R C ro co th tw pad : val :=
   vres vz_list3 (get_tile_array_nd S M R C ro co th tw pad).
 Definition run_cut_all M R C th tw pad : val :=
   VL (map (fun t => VL [vpairz (fst t); vres vz_list2 (snd t)]) (cut_all M R C th tw pad)).
+
+(* utils.are_plane_positions_tiled_full, statement by statement: the scan for
+   the largest row / column position (two independent `if`s), the length
+   test, then the zip loop returning False at the first differing pair.
+   Proved equal to are_tiled_full in C12_Proofs_Ext.v. *)
+Fixpoint scan_max (ps : list (Z * Z)) (max_r max_c : Z) : Z * Z :=
+  match ps with
+  | [] => (max_r, max_c)
+  | (r, c) :: t => scan_max t (if max_r <? r then r else max_r) (if max_c <? c then c else max_c)
+  end.
+Fixpoint zip_all_eq (e ps : list (Z * Z)) : bool :=
+  match e, ps with
+  | (r_exp, c_exp) :: e', (r, c) :: ps' =>
+      if negb (r =? r_exp) || negb (c =? c_exp) then false else zip_all_eq e' ps'
+  | _, _ => true
+  end.
+Definition are_tiled_full_code (ps : list (Z * Z)) (th tw : Z) : bool :=
+  let '(max_r, max_c) := scan_max ps (-1) (-1) in
+  let e := expected_positions max_r max_c th tw in
+  if negb (Nat.eqb (List.length e) (List.length ps)) then false else zip_all_eq e ps.
+Definition run_tiled_full_code ps th tw : val := VB (are_tiled_full_code ps th tw).
